@@ -212,8 +212,9 @@ def kern_eq_obl(pair):
                stubs=['generated table vf_coefs[i] == i'], funcs=['cr-core.c:%s' % names[0], 'cr-core.c:%s' % names[1], 'cr-core.c:poly_firs'])
 
 
-def init_qq_obl(timeout=600):
-    return Obl(name='init_quick_recipe', src='init_qq.c', unwind=4, timeout=timeout, extra=KISSAT,
+def init_qq_obl(timeout=600, may_fail=False, kf=None):
+    return Obl(name='init_quick_recipe' + ('_allocfail' if may_fail else '') + ('_probe' if kf else ''), src='init_qq.c', unwind=4, timeout=timeout, extra=KISSAT,
+               defs=['-DVF_MAY_FAIL'] if may_fail else [], malloc_may_fail=may_fail, kf=kf,
                desc='the real _soxr_init (cr.c) for the quick recipe with symbolic io_ratio and gain: the cubic stage it builds is inside ENV(cubic) (progress, context, pre-load, gain once)',
                bounds='precision 0 (no planning loop), io_ratio in [1e-6, 1e9], gain in (0, 1e6), any runtime flags; higher precisions are not symbolically executable',
                stubs=['stage array calloc: typed exactly sized object', 'design functions unreachable on this path (asserted)'],
